@@ -2,6 +2,7 @@ package props
 
 import (
 	"fmt"
+	"go/types"
 
 	"d2verif/internal/core"
 )
@@ -35,6 +36,56 @@ func init() {
 		}
 		for _, w := range globalWrites(p, rels) {
 			fmt.Printf("%-45s %-50s %s.%s  %s\n", p.Pos(w.pos), w.fn.String(), core.RelPkg(w.global.Pkg.Pkg.Path()), w.global.Name(), w.what)
+		}
+	}
+}
+
+func init() {
+	dumpers["nil"] = func(p *core.Prog) {
+		safe := map[*types.Func]bool{}
+		for _, rel := range []string{"d2ir", "d2compiler", "d2graph", "d2ast"} {
+			for f := range nilSafeMethods(p, p.Pkg(rel)) {
+				safe[f] = true
+			}
+		}
+		for _, u := range nameNilUses(p, p.Pkg("d2ir")) {
+			st := "UNGUARDED"
+			if u.ok {
+				st = "ok"
+			}
+			fmt.Printf("NAME %-10s %-34s %-45s %s\n", st, p.Pos(u.node.Pos()), fname(u.fi), u.how)
+		}
+		for _, rel := range []string{"d2ir", "d2compiler", "d2graph"} {
+			pk := p.Pkg(rel)
+			for _, u := range nilUsesIn(p, pk, safe) {
+				st := "UNGUARDED"
+				if u.ok {
+					st = "ok"
+				}
+				fmt.Printf("%-10s %-34s %-45s %-30s %s %s\n", st, p.Pos(u.node.Pos()), fname(u.fi), u.source, u.how, u.idiom)
+			}
+		}
+	}
+}
+
+func init() {
+	dumpers["strindex"] = func(p *core.Prog) {
+		var rels []string
+		for _, pk := range p.RepoPkgs() {
+			rels = append(rels, pk.PkgPath)
+		}
+		for _, u := range strIndexUses(p, rels) {
+			fmt.Printf("%v %-40s %-50s %s\n", u.ok, p.Pos(u.pos), u.fn.String(), u.detail)
+		}
+	}
+}
+
+func init() {
+	dumpers["sealed"] = func(p *core.Prog) {
+		for _, rel := range []string{"d2ir", "d2compiler", "d2format", "d2parser", "d2graph", "d2oracle", "d2ast"} {
+			for _, ss := range sealedSwitchesIn(p, p.Pkg(rel)) {
+				fmt.Printf("%-34s %-45s %-22s default=%-5v late=%v uncovered=%v\n", p.Pos(ss.sw.Pos()), fname(ss.fi), ss.iface.Obj().Name(), ss.hasDefault, ss.lateVars, ss.uncovered)
+			}
 		}
 	}
 }
